@@ -34,9 +34,12 @@ WithFail(S) == S \cup {[s EXCEPT !.sendFail = <<TRUE>>] : s \in S}
 ReqNew(tid, pull, v, sel) == [Req("New", tid) EXCEPT !.pull = pull, !.v = v, !.base = "base", !.sel = sel]
 ReqRestart(tid, pull, v, base) == [Req("Restart", tid) EXCEPT !.pull = pull, !.v = v, !.base = base, !.sel = "s"]
 AllReqs(tid, pull) == {ReqNew(tid, pull, "v0", "s"), ReqRestart(tid, pull, "v0", "base"), Req("Cancel", tid), [Req("Voucher", tid) EXCEPT !.v = "v4"],
+                       [Req("Voucher", tid) EXCEPT !.v = "v3"],        \* the same voucher as the latest one of the "prog" records: recorded again (each exactly once per message)
                        [Req("Update", tid) EXCEPT !.paused = TRUE], Req("Update", tid)}
 AllResps(tid) == {Resp("New", tid, TRUE, FALSE, ""), Resp("New", tid, FALSE, FALSE, "r1"), Resp("Restart", tid, TRUE, FALSE, ""), Resp("Restart", tid, FALSE, FALSE, ""),
-                  Resp("VoucherResult", tid, TRUE, FALSE, "r1"), Resp("VoucherResult", tid, FALSE, FALSE, "r1"), Resp("Complete", tid, TRUE, FALSE, ""), Resp("Complete", tid, TRUE, TRUE, "r3"),
+                  Resp("VoucherResult", tid, TRUE, FALSE, "r1"), Resp("VoucherResult", tid, FALSE, FALSE, "r1"),
+                  Resp("VoucherResult", tid, TRUE, FALSE, "r0"),       \* repeats the latest result of the "prog" records: still one more entry
+ Resp("Complete", tid, TRUE, FALSE, ""), Resp("Complete", tid, TRUE, TRUE, "r3"),
                   Resp("Update", tid, FALSE, TRUE, ""), Resp("Update", tid, FALSE, FALSE, ""), Resp("Cancel", tid, FALSE, FALSE, "")}
 RecvAll(from, tid, pull) == {[St("RecvRequest") EXCEPT !.from = from, !.msg = m] : m \in AllReqs(tid, pull)}
                             \cup {[St("RecvResponse") EXCEPT !.from = from, !.msg = m] : m \in AllResps(tid)}
